@@ -454,6 +454,9 @@ def _c06(dump_path, fname, tier, fam, idx):
         out["status"] = "outside"
         out["reason"] = "no mathematical spec"
         return out
+    if "limbs" in entry.tags and tier == "thorough":
+        # multi-limb kernels (u256 x u256 -> u512): dozens of carry paths, a few seconds per query
+        tp = dict(tp, func_budget_s=tp["func_budget_s"] * 2)
     fa = explore(prog, f, False, tp, out)
     if fa is None:
         return out
